@@ -124,8 +124,10 @@ def fmt_num(spec, value):
     a = abs(d)
     dec = spec['dec'] or 0
     q = Decimal(1).scaleb(-dec)
-    outs = set()
+    accepted = set()
+    overflow_any = False
     for mode in (ROUND_HALF_UP, ROUND_HALF_EVEN):
+        outs = set()
         r = a.quantize(q, rounding=mode)
         s = f'{r:f}'
         if '.' in s:
@@ -161,13 +163,14 @@ def fmt_num(spec, value):
                     outs.add(' ' * (w - len(txt)) + txt)
                 else:
                     outs.add('%' + txt)
-    # prefer fitting renderings: if any candidate fits, the overflow candidates of the same rounding are not acceptable
-    fitting = {o for o in outs if not o.startswith('%')}
-    if fitting:
-        # a candidate with the leading zero that overflows is not acceptable when the zero-less one fits,
-        # except that both "0.50" (fits) and ".50" are fine when both fit
-        return fitting, False
-    return outs, True
+        # within one rounding rule: if some rendering fits, the widened ones are not acceptable
+        fitting = {o for o in outs if not o.startswith('%')}
+        if fitting:
+            accepted |= fitting
+        else:
+            accepted |= outs
+            overflow_any = True
+    return accepted, overflow_any
 
 
 def values_for(spec, r):
